@@ -1900,11 +1900,11 @@ class QuadraticForm(Functional):
 
         if self.vector is None:
             # Handle trivial case separately
-            return QuadraticForm(operator=self.operator.inverse,
+            return QuadraticForm(operator=0.25 * self.operator.inverse,
                                  constant=-self.constant)
         else:
             # Compute the needed variables
-            opinv = self.operator.inverse
+            opinv = 0.25 * self.operator.inverse
             vector = -opinv.adjoint(self.vector) - opinv(self.vector)
             constant = self.vector.inner(opinv(self.vector)) - self.constant
 
